@@ -127,6 +127,27 @@ pub fn sp(id: u16) -> u32 {
     }
 }
 
+// async-world sources and helpers ---------------------------------------------------------------
+pub fn sf(id: u16) -> futures::future::Ready<u32> {
+    futures::future::ready(sp(id))
+}
+pub fn stf(id: u16) -> futures::future::Ready<Result<u32, u8>> {
+    futures::future::ready(sr(id))
+}
+pub fn ss(id: u16) -> futures::stream::Iter<std::vec::IntoIter<u32>> {
+    futures::stream::iter(si(id))
+}
+pub fn fut_inc<const ID: u16, F: std::future::Future<Output = u32>>(f: F) -> impl std::future::Future<Output = u32> {
+    async move {
+        let v = f.await;
+        z(ID, &v);
+        v.wrapping_add(5)
+    }
+}
+pub fn fut_ok<F: std::future::Future>(f: F) -> impl std::future::Future<Output = Result<F::Output, u8>> {
+    async move { Ok::<_, u8>(f.await) }
+}
+
 // fn-path / call-expression operand spellings ------------------------------------------------
 pub fn inc<const ID: u16>(v: u32) -> u32 {
     z(ID, &v);
